@@ -138,6 +138,14 @@ func drawGraph(t *tape.Tape, encrypted bool) []*node {
 			for k := 0; k < t.Draw(l+".n", 3); k++ {
 				d[pdf.Name(fmt.Sprintf("S%d", k))] = value(fmt.Sprintf("%s.S%d", l, k), 1)
 			}
+			if t.Bool(l+".strings", 1, 2) {
+				// strings in a stream dictionary (also nested): encrypted with
+				// the stream's own key in the source and in the target
+				d["Title"] = gen.String(t, l+".title", &gen.Opts{})
+				if t.Bool(l+".nested", 1, 2) {
+					d["Sub"] = pdf.Dict{"Note": gen.String(t, l+".note", &gen.Opts{}), "Arr": pdf.Array{gen.String(t, l+".arrstr", &gen.Opts{})}}
+				}
+			}
 			nd.value = d
 			nd.body = gen.Body(t, l+".body", 3000, false)
 			nd.filter = tape.Pick(t, l+".filter", "", "Flate", "AHx", "JBIG2", "FlatePNG")
@@ -521,12 +529,17 @@ func Run(e *core.Env) {
 	}
 }
 
+// errShape reduces an error message to its constant words (no numbers) so
+// that it can serve as a class attribute.
 func errShape(err error) string {
-	s := err.Error()
-	if len(s) > 50 {
-		s = s[:50]
+	msg := err.Error()
+	var out []byte
+	for i := 0; i < len(msg) && len(out) < 50; i++ {
+		if c := msg[i]; c < '0' || c > '9' {
+			out = append(out, c)
+		}
 	}
-	return s
+	return string(out)
 }
 
 func describe(nodes []*node) []string {
